@@ -109,6 +109,7 @@ type FuncSpec struct {
 	Trusted   bool
 	ViewOf    string // `view <module>`: a weaker view of the contract verified in that module of the same package (clauses checked to be a subset)
 	Closure   bool // the contract is about the function literal this function returns (its free variables are the outer parameters)
+	InputOnly bool // `inputs`: the spec only states input assumptions (requires) of an exported method for the invariant sweep; the body is executed there
 	Inline    bool // the spec only carries loop invariants: the function is inlined at every call site (e.g. it takes an iterator)
 	Logged    bool // every call is recorded in the ghost log xcalls("<Func>") and its first result as cres("<Func>", i)
 	Nofault   bool
@@ -158,7 +159,7 @@ type parser struct {
 }
 
 var declKw = map[string]bool{"dialect": true, "use": true, "pure": true, "pred": true, "fold": true, "invariant": true,
-	"ghost": true, "lemma": true, "module": true, "props": true, "opaque": true, "reveal": true, "logged": true, "witness": true, "safe": true, "func": true, "ufun": true, "axiom": true, "nofault": true, "requires": true, "ensures": true, "cover": true, "loop": true, "frame": true, "trusted": true, "inline": true, "view": true, "closure": true}
+	"ghost": true, "lemma": true, "module": true, "props": true, "opaque": true, "reveal": true, "logged": true, "witness": true, "safe": true, "func": true, "ufun": true, "axiom": true, "nofault": true, "requires": true, "ensures": true, "cover": true, "loop": true, "frame": true, "trusted": true, "inline": true, "inputs": true, "view": true, "closure": true}
 
 func (p *parser) peek() token { return p.toks[p.pos] }
 func (p *parser) next() token { t := p.toks[p.pos]; p.pos++; return t }
@@ -386,6 +387,9 @@ func Parse(src string) (f *File, err error) {
 		case "trusted":
 			cur.Trusted = true
 		case "inline":
+			cur.Inline = true
+		case "inputs":
+			cur.InputOnly = true
 			cur.Inline = true
 		case "closure":
 			cur.Closure = true
